@@ -515,6 +515,17 @@ def gen_foreign(rng, pool=None, shuffle=True, blanks=True, crlf=None,
                 kind = 'unix'
                 nl = R.NL(kind, eff)
 
+            if json_styles and rng.chance(0.03):
+                # an object that repeats a key (once spelled with an
+                # escape): the last member counts
+                t0 = t = rng.choice([
+                    '{"a": 2, "\\u0061": 1}', '{"k": "z", "k": "a", "n": 1}',
+                    '{"p": {"q": 1}, "p": {"q": 0}}', '{"a": [2], "a": [1]}',
+                    '{"b": 1, "a": 3, "b": 0}',
+                    '{"path": "new", "p\\u0061th": "a-old"}'])
+                kind = 'unix'
+                nl = R.NL(kind, eff)
+
             try:
                 raw = t.encode(eff or 'utf-8')
             except UnicodeError:
@@ -745,6 +756,12 @@ def gen_stream_extras(rng):
     if rng.chance(0.05):
         # a reader subclass that overrides the constructor only
         d['own_ctor'] = True
+
+    if rng.chance(0.4):
+        # records taken from reader.iter_sections() rather than
+        # iter(reader) (the first reader of a scenario would otherwise
+        # always be iterated the same way)
+        d['via_iter_sections'] = True
 
     if rng.chance(0.05):
         # iterators asked for and dropped before the real iteration
